@@ -8,9 +8,22 @@ import Driver.C12
 import Driver.C19
 import Driver.C20
 import Driver.C03
+import Driver.PuzSudoku
+import Driver.PuzStarBattle
+import Driver.PuzPutteria
+import Driver.PuzNorinori
+import Driver.PuzAkari
+import Driver.PuzAquarium
+import Driver.PuzBuilding
+import Driver.PuzDoppelblock
+import Driver.PuzSlitherlink
+import Driver.PuzSimpleloop
+import Driver.PuzMasyu
+import Driver.PuzGeradeweg
+import Driver.PuzYajilin
 open Cspuz Cspuz.Drv
 
-def handlers : List (Sexp → Option Sexp) := [handleC13, handleGraph, handleCore, handleC18, handleC14, handleC15, handleC12, handleC19, handleC20, handleC03]
+def handlers : List (Sexp → Option Sexp) := [handleC13, handleGraph, handleCore, handleC18, handleC14, handleC15, handleC12, handleC19, handleC20, handleC03, handlePuzSudoku, handlePuzStarBattle, handlePuzPutteria, handlePuzNorinori, handlePuzAkari, handlePuzAquarium, handlePuzBuilding, handlePuzDoppelblock, handlePuzSlitherlink, handlePuzSimpleloop, handlePuzMasyu, handlePuzGeradeweg, handlePuzYajilin]
 
 def handle (s : Sexp) : Sexp :=
   match s with
